@@ -837,3 +837,82 @@ pub fn with_declaration_variants(us: Vec<Universe>) -> Vec<Universe> {
     }
     out
 }
+
+/// split outputs + rename + a shared Ephemeral: `x, y:Always -> M` with M = `p:::q` or `p:::q:::s` (part i
+/// reads input i), `e:Ephemeral`, `d` consumes p and e, `c` consumes q and e; every sub-configuration of
+/// the consumers.  A rename that changes one output only, a late failure of e, a shielded consumer.
+pub fn split_rename() -> Vec<Universe> {
+    let mut graphs = Vec::new();
+    for m_id in ["p:::q", "p:::q:::s"] {
+        // (both consumers always present: the sub-configurations are in `split-O` / `split-E`)
+        for has_d in [true] {
+            for has_c in [true] {
+                let mut m = JobDef::new(m_id, Kind::O);
+                m.split_inputs = true;
+                let mut jobs = vec![JobDef::new("x", Kind::A), JobDef::new("y", Kind::A), m];
+                let mut edges = vec![
+                    Edge { up: 0, down: 2, read: true, parts: vec![] },
+                    Edge { up: 1, down: 2, read: true, parts: vec![] },
+                ];
+                if has_d || has_c {
+                    jobs.push(JobDef::new("e", Kind::E));
+                }
+                let ei = jobs.len() - 1;
+                if has_d {
+                    jobs.push(JobDef::new("d", Kind::O));
+                    let di = jobs.len() - 1;
+                    edges.push(Edge { up: 2, down: di, read: true, parts: vec!["p".into()] });
+                    edges.push(Edge { up: ei, down: di, read: true, parts: vec![] });
+                }
+                if has_c {
+                    jobs.push(JobDef::new("c", Kind::O));
+                    let ci = jobs.len() - 1;
+                    edges.push(Edge { up: 2, down: ci, read: true, parts: vec!["q".into()] });
+                    edges.push(Edge { up: ei, down: ci, read: true, parts: vec![] });
+                }
+                graphs.push(Graph { jobs, edges });
+            }
+        }
+    }
+    graphs.sort_by_key(|g| (g.n(), g.edges.len()));
+    vec![Universe { label: "split-rename".into(), graphs }]
+}
+
+/// two producers merged into one multi-output job and back: `x:Always -> p:::q`, `y:Always -> r`, `d`
+/// reads p and r; or `x, y -> p:::q:::r` (parts p and q read x, part r reads y), `d` reads p and r of it.
+/// The old id `p:::q` shares two outputs with the merged job, `r` one: the renamed-upstream lookup is
+/// unambiguous, and the output that d reads *and* that can change is the one the old id did not have.
+pub fn merge_outputs() -> Vec<Universe> {
+    let mut graphs = Vec::new();
+    let xs = || vec!["x".to_string()];
+    let ys = || vec!["y".to_string()];
+    for has_d in [true, false] {
+        // separate producers
+        let mut jobs = vec![JobDef::new("x", Kind::A), JobDef::new("y", Kind::A), JobDef::new("p:::q", Kind::O), JobDef::new("r", Kind::O)];
+        let mut edges = vec![
+            Edge { up: 0, down: 2, read: true, parts: vec![] },
+            Edge { up: 1, down: 3, read: true, parts: vec![] },
+        ];
+        if has_d {
+            jobs.push(JobDef::new("d", Kind::O));
+            edges.push(Edge { up: 2, down: 4, read: true, parts: vec!["p".into()] });
+            edges.push(Edge { up: 3, down: 4, read: true, parts: vec!["r".into()] });
+        }
+        graphs.push(Graph { jobs, edges });
+        // merged
+        let mut m = JobDef::new("p:::q:::r", Kind::O);
+        m.part_inputs = vec![xs(), xs(), ys()];
+        let mut jobs = vec![JobDef::new("x", Kind::A), JobDef::new("y", Kind::A), m];
+        let mut edges = vec![
+            Edge { up: 0, down: 2, read: true, parts: vec![] },
+            Edge { up: 1, down: 2, read: true, parts: vec![] },
+        ];
+        if has_d {
+            jobs.push(JobDef::new("d", Kind::O));
+            edges.push(Edge { up: 2, down: 3, read: true, parts: vec!["p".into(), "r".into()] });
+        }
+        graphs.push(Graph { jobs, edges });
+    }
+    graphs.sort_by_key(|g| (g.n(), g.edges.len()));
+    vec![Universe { label: "merge".into(), graphs }]
+}
